@@ -28,6 +28,36 @@ def main():
         replay = args[args.index("--replay") + 1]
     seed = int(os.environ.get("VERIF_SEED", "0"))
     ctx = common.Ctx(pid, tier, seed, replay)
+    sys.stdout.flush()
+    # The property module runs in a child process: the implementation is compiled code with bounds
+    # checks switched off, and a change to it can crash the interpreter (segmentation fault).  Such a
+    # crash must be reported as a violation, with the case that was running (ctx.crumb) as replay.
+    child = os.fork()
+    if child == 0:
+        code = 3
+        try:
+            code = run_inner(ctx, pid)
+        finally:
+            sys.stdout.flush()
+            sys.stderr.flush()
+            os._exit(code)
+    _, status = os.waitpid(child, 0)
+    if os.WIFEXITED(status) and os.WEXITSTATUS(status) in (0, 1, 2):
+        return os.WEXITSTATUS(status)
+    what = ("killed by signal %d" % os.WTERMSIG(status)) if os.WIFSIGNALED(status) else ("exit status %d" % os.WEXITSTATUS(status))
+    crumb = None
+    try:
+        crumb = json.load(open(os.path.join(ctx.gen, "breadcrumb.json")))
+    except Exception:
+        pass
+    ctx.obligation("check ran to completion", "harness", False, what)
+    ctx.coverage.update({"evaluations": 1, "distinct_nontrivial": 0, "rule": "the run was cut short: " + what})
+    ctx.violation("crash:" + what, "the implementation crashed the interpreter while the check was running (%s)" % what,
+                  {"last_case_started": crumb}, found=crumb is not None)
+    return ctx.finish()
+
+
+def run_inner(ctx, pid):
     try:
         mod = importlib.import_module(pid.lower())
         mod.run(ctx)
